@@ -97,6 +97,10 @@ func init() {
 			if r.Ints["sum"] != 0 {
 				// per-series, per-bucket sum instead of average: a datapoint present twice shows as 2v
 				reqs[i].MetricsQuery.Downsampler.Aggregator.AggregatorFunction = sutils.Sum
+				reqs[i].MetricsQuery.FirstAggregator.AggregatorFunction = sutils.Sum
+				if sa := reqs[i].MetricsQuery.SubsequentAggs; sa != nil && sa.AggregatorBlock != nil {
+					sa.AggregatorBlock.AggregatorFunction = sutils.Sum
+				}
 			}
 			hashes = append(hashes, reqs[i].MetricsQuery.QueryHash)
 			list = append(list, &reqs[i].MetricsQuery)
